@@ -142,3 +142,291 @@ From BB Require Gen.Guards Proofs.Guards.
 Theorem C01_register_aliases_from_source : Proofs.Guards.register_aliases_from_source_stmt.
 Proof. exact Proofs.Guards.register_aliases_from_source. Qed.
 Print Assumptions C01_register_aliases_from_source.
+
+(* ==== the remaining families, from the source line (Proofs/EndToEndMore.v) ===========================================================
+   A extension (lr.w, sc.w, amo*.w with and without the two ordering operands), fence (two sets / alone) and fence.i, ecall / ebreak,
+   Zicsr, and the `imm(reg)` spelling of loads / stores / jalr.  In every theorem t0 is the mnemonic AS WRITTEN (any case: only its
+   lower-case form is fixed), registers are in ANY spelling the Spec reads (regnum: xN, ABI name, a number 0..31 in any integer
+   spelling), `cmp` is the compression switch (both modes), and the conclusion names the Spec instruction with the operands as written.
+
+   line_gives l toks cmp bs: the parser model turns the tokens into an item which the 16 passes of the pass model turn into exactly
+   the one chunk bs -- and every text the lexer model reads as these tokens assembles (assemble_text) to exactly that.
+   line_fails l toks cmp: the same two levels end in the assembler's own error at line l (no result). *)
+From BB Require Import Gen.Criteria Spec.RVC Spec.Legal Proofs.Program Proofs.LegalCompress Proofs.EndToEndMore.
+Import EndToEndMore.
+
+Theorem C01_line_gives_meaning : forall l toks cmp bs,
+  (line_gives l toks cmp bs <->
+   ((exists it, Parser.parse_item l toks = Parser.FOk it /\
+                Passes.assemble_items [(l, it)] nil nil cmp =
+                Passes.Done {| Passes.r_chunks := [(l, Passes.CBytes bs)]; Passes.r_consts := nil; Passes.r_labels := nil |}) /\
+    (forall text, Lexer.lex_tokens text = Some toks ->
+                assemble_text [(l, text)] nil nil cmp =
+                TDone {| Passes.r_chunks := [(l, Passes.CBytes bs)]; Passes.r_consts := nil; Passes.r_labels := nil |}))) /\
+  (line_fails l toks cmp <->
+   ((exists it, Parser.parse_item l toks = Parser.FOk it /\ Passes.assemble_items [(l, it)] nil nil cmp = Passes.Fail (Items.PAsm l)) /\
+    (forall text, Lexer.lex_tokens text = Some toks -> assemble_text [(l, text)] nil nil cmp = TFail (Items.PAsm l)))).
+Proof. intros. split; reflexivity. Qed.
+Print Assumptions C01_line_gives_meaning.
+(* ... hence in any separator style (C13): indentation, blanks / tabs / commas between the tokens, trailing comment *)
+Theorem C01_line_gives_any_style : forall (sty : LexSep.style) l toks cmp bs,
+  let ts := map chars toks in
+  line_gives l toks cmp bs -> Forall LexSep.tok_ok ts -> LexSep.not_special ts -> LexSep.style_ok sty ts ->
+  assemble_text [(l, unchars (LexSep.render sty ts))] nil nil cmp = TDone (chunk_result l bs).
+Proof. exact line_gives_styles. Qed.
+Print Assumptions C01_line_gives_any_style.
+
+(* how operands are read that are not registers.  The ordering operands of the atomics: ord_bits ord = Some (aq, rl) -- no operands
+   (0, 0) or two integer literals, each 0 or 1; ord_kw ord -- the keyword arguments aq / rl the encoder is called with.  A 5-bit
+   immediate written as a number is read by the register lookup as that number. *)
+Theorem C01_ordering_operands :
+  ord_bits nil = Some (0, 0) /\ ord_kw nil = [("aq", AInt 0); ("rl", AInt 0)]%string /\
+  (forall a r, ord_kw [a; r] = [("aq", AStr a); ("rl", AStr r)]%string /\
+    forall aq rl, ord_bits [a; r] = Some (aq, rl) <-> (py_int_lit a = Some aq /\ py_int_lit r = Some rl /\ 0 <= aq <= 1 /\ 0 <= rl <= 1)) /\
+  (forall s z, py_int_lit s = Some z -> 0 <= z <= 31 -> regnum (AStr s) = Some z).
+Proof. split; [|split; [|split]]; try apply ordering_operands. exact uimm_regnum. Qed.
+Print Assumptions C01_ordering_operands.
+
+(* ---- A extension: amoswap.w .. amomaxu.w rd, rs1, rs2 [, aq, rl] / sc.w rd, rs1, rs2 [, aq, rl] / lr.w rd, rs1 [, aq, rl];
+   the word decodes to the operation, the three (two) registers and the aq / rl BITS written on the line (0 0 when omitted) *)
+Theorem C01_atomic_line_end_to_end :
+  (forall l t0 o rd rs1 rs2 ord nrd nrs1 nrs2 aq rl cmp,
+    lower t0 = amoop_name o ->
+    regnum (AStr rd) = Some nrd -> regnum (AStr rs1) = Some nrs1 -> regnum (AStr rs2) = Some nrs2 -> ord_bits ord = Some (aq, rl) ->
+    exists w, encode (amoop_name o) [AStr rd; AStr rs1; AStr rs2] (ord_kw ord) = Ok w /\
+      line_gives l (t0 :: rd :: rs1 :: rs2 :: ord) cmp (Passes.le_bytes 4 w) /\ 0 <= w < 2 ^ 32 /\
+      decode32 w = Some (Amo o nrd nrs1 nrs2 aq rl)) /\
+  (forall l t0 rd rs1 rs2 ord nrd nrs1 nrs2 aq rl cmp,
+    lower t0 = "sc.w"%string ->
+    regnum (AStr rd) = Some nrd -> regnum (AStr rs1) = Some nrs1 -> regnum (AStr rs2) = Some nrs2 -> ord_bits ord = Some (aq, rl) ->
+    exists w, encode "sc.w" [AStr rd; AStr rs1; AStr rs2] (ord_kw ord) = Ok w /\
+      line_gives l (t0 :: rd :: rs1 :: rs2 :: ord) cmp (Passes.le_bytes 4 w) /\ 0 <= w < 2 ^ 32 /\
+      decode32 w = Some (ScW nrd nrs1 nrs2 aq rl)) /\
+  (forall l t0 rd rs1 ord nrd nrs1 aq rl cmp,
+    lower t0 = "lr.w"%string ->
+    regnum (AStr rd) = Some nrd -> regnum (AStr rs1) = Some nrs1 -> ord_bits ord = Some (aq, rl) ->
+    exists w, encode "lr.w" [AStr rd; AStr rs1] (ord_kw ord) = Ok w /\
+      line_gives l (t0 :: rd :: rs1 :: ord) cmp (Passes.le_bytes 4 w) /\ 0 <= w < 2 ^ 32 /\
+      decode32 w = Some (LrW nrd nrs1 aq rl)).
+Proof. split; [exact amo_line|split; [exact sc_line|exact lr_line]]. Qed.
+Print Assumptions C01_atomic_line_end_to_end.
+
+(* ---- fence succ, pred -- the operand order of the assembler's instruction reference (the ISA manual writes `fence pred, succ`);
+   the sets are integer literals 0 .. 15; decoded: Fence fm pred succ with fm = 0.  `fence` alone (the pseudo-instruction) is
+   fence iorw, iorw = 0x0ff0000f; fence.i = 0x0000100f. *)
+Theorem C01_fence_line_end_to_end :
+  (forall l t0 succ pred ns np cmp,
+    lower t0 = "fence"%string ->
+    py_int_lit succ = Some ns -> py_int_lit pred = Some np -> 0 <= ns <= 15 -> 0 <= np <= 15 ->
+    exists w, encode "fence" [AStr succ; AStr pred] nil = Ok w /\
+      line_gives l [t0; succ; pred] cmp (Passes.le_bytes 4 w) /\ 0 <= w < 2 ^ 32 /\
+      decode32 w = Some (Fence 0 np ns)) /\
+  (forall l t0 cmp, lower t0 = "fence"%string ->
+    line_gives l [t0] cmp (Passes.le_bytes 4 267386895) /\ encode "fence" [AInt 15; AInt 15] nil = Ok 267386895 /\
+    decode32 267386895 = Some (Fence 0 15 15)) /\
+  (forall l t0 cmp, lower t0 = "fence.i"%string -> line_gives l [t0] cmp (Passes.le_bytes 4 4111) /\ decode32 4111 = Some FenceI).
+Proof. split; [exact fence_line|split; [exact fence_alone_line|exact fence_i_line]]. Qed.
+Print Assumptions C01_fence_line_end_to_end.
+
+(* ---- ecall = 0x00000073 in both modes; ebreak = 0x00100073 without compression.  WITH compression `ebreak` becomes c.ebreak: the
+   two bytes of the halfword 0x9002, which the RV32C Spec decodes to the instruction that expands to EBREAK (the only line of these
+   families that compression changes) *)
+Theorem C01_system_line_end_to_end :
+  (forall l t0 cmp, lower t0 = "ecall"%string -> line_gives l [t0] cmp (Passes.le_bytes 4 115) /\ decode32 115 = Some Ecall) /\
+  (forall l t0, lower t0 = "ebreak"%string -> line_gives l [t0] false (Passes.le_bytes 4 1048691) /\ decode32 1048691 = Some Ebreak) /\
+  (forall l t0, lower t0 = "ebreak"%string ->
+    line_gives l [t0] true (Passes.le_bytes 2 36866) /\ encode "c.ebreak" nil nil = Ok 36866 /\
+    decode16 36866 = Some CEbreak /\ expand_c CEbreak = Ebreak).
+Proof. split; [exact ecall_line|split; [exact ebreak_line|exact ebreak_line_compressed]]. Qed.
+Print Assumptions C01_system_line_end_to_end.
+
+(* ---- Zicsr: csrrw / csrrs / csrrc rd, rs1, csr and csrrwi / csrrsi / csrrci rd, uimm, csr; the CSR number is a LITERAL (a token whose
+   expression `a` has no names: closed a csr -- 0x300, 768, 3<<8) in 0 .. 4095.  The second operand of ALL six goes through the
+   assembler's register lookup (regnum): a 5-bit immediate written as a number is that number (C01_ordering_operands, last part);
+   `csrrwi t0, t1, 0x300` is accepted too and means uimm = 6. *)
+Theorem C01_csr_line_end_to_end :
+  forall l t0 o rd src tok a csr nrd nsrc cmp,
+    lower t0 = csrop_name o ->
+    Parser.parse_immediate [tok] l = Parser.FOk (Items.EArith a) -> closed a csr ->
+    regnum (AStr rd) = Some nrd -> regnum (AStr src) = Some nsrc -> 0 <= csr <= 4095 ->
+    exists w, encode (csrop_name o) [AStr rd; AStr src; AInt csr] nil = Ok w /\
+      line_gives l [t0; rd; src; tok] cmp (Passes.le_bytes 4 w) /\ 0 <= w < 2 ^ 32 /\
+      decode32 w = Some (Csr o nrd nsrc csr).
+Proof. exact csr_line. Qed.
+Print Assumptions C01_csr_line_end_to_end.
+
+(* ---- the `imm(reg)` spelling: lb lh lw lbu lhu rd, imm(rs1) / sb sh sw rs2, imm(rs1) / jalr rd, imm(rs1), literal offset.
+   With compression on, stated for the mnemonics that head no compression rule (lw / sw / jalr may become c.lw, c.lwsp, c.sw,
+   c.swsp, c.jr, c.jalr: C04 / C20) *)
+Theorem C01_imm_reg_line_end_to_end :
+  (forall l t0 wd rd off rs1 a imm nrd nrs1 cmp,
+    lower t0 = lwidth_name wd ->
+    Parser.parse_immediate [off] l = Parser.FOk (Items.EArith a) -> closed a imm ->
+    regnum (AStr rd) = Some nrd -> regnum (AStr rs1) = Some nrs1 -> -2048 <= imm <= 2047 ->
+    (cmp = true -> wd <> LW) ->
+    exists w, encode (lwidth_name wd) [AStr rd; AStr rs1; AInt imm] nil = Ok w /\
+      line_gives l [t0; rd; off; "("; rs1; ")"]%string cmp (Passes.le_bytes 4 w) /\ 0 <= w < 2 ^ 32 /\
+      decode32 w = Some (Load wd nrd nrs1 imm)) /\
+  (forall l t0 wd rs2 off rs1 a imm nrs1 nrs2 cmp,
+    lower t0 = swidth_name wd ->
+    Parser.parse_immediate [off] l = Parser.FOk (Items.EArith a) -> closed a imm ->
+    regnum (AStr rs1) = Some nrs1 -> regnum (AStr rs2) = Some nrs2 -> -2048 <= imm <= 2047 ->
+    (cmp = true -> wd <> SW) ->
+    exists w, encode (swidth_name wd) [AStr rs1; AStr rs2; AInt imm] nil = Ok w /\
+      line_gives l [t0; rs2; off; "("; rs1; ")"]%string cmp (Passes.le_bytes 4 w) /\ 0 <= w < 2 ^ 32 /\
+      decode32 w = Some (Store wd nrs1 nrs2 imm)) /\
+  (forall l t0 rd off rs1 a imm nrd nrs1,
+    lower t0 = "jalr"%string ->
+    Parser.parse_immediate [off] l = Parser.FOk (Items.EArith a) -> closed a imm ->
+    regnum (AStr rd) = Some nrd -> regnum (AStr rs1) = Some nrs1 -> -2048 <= imm <= 2047 -> imm mod 2 = 0 ->
+    exists w, encode "jalr" [AStr rd; AStr rs1; AInt imm] nil = Ok w /\
+      line_gives l [t0; rd; off; "("; rs1; ")"]%string false (Passes.le_bytes 4 w) /\ 0 <= w < 2 ^ 32 /\
+      decode32 w = Some (Jalr nrd nrs1 imm)).
+Proof. split; [exact load_paren_line|split; [exact store_paren_line|exact jalr_paren_line]]. Qed.
+Print Assumptions C01_imm_reg_line_end_to_end.
+
+(* ---- the general form behind the family theorems (in the style of C01_imm_line_end_to_end).  more_form l toks name pos kw
+   (Proofs/EndToEndMore.v, one constructor per line shape): toks is a line of these families, pos / kw the positional and keyword
+   operands the encoder receives.  Whatever operands the generated encoder accepts, the line gives the encoder's word, and the word
+   decodes to the instruction the operands name.  compress_heads: the mnemonics that head a compression rule (regenerated table). *)
+Theorem C01_more_line_end_to_end :
+  forall l toks name pos kw w cmp,
+    more_form l toks name pos kw -> encode name pos kw = Ok w ->
+    (cmp = true -> mem_str name compress_heads = false) ->
+    line_gives l toks cmp (Passes.le_bytes 4 w) /\ 0 <= w < 2 ^ 32 /\
+    exists ops i, operands32 name pos kw = Some ops /\ legal32 name ops = true /\ denote32 name ops = Some i /\ decode32 w = Some i.
+Proof. exact more_line_end_to_end. Qed.
+Print Assumptions C01_more_line_end_to_end.
+(* ... and exactly: operands as written readable and inside the documented set (Spec only: legal_line32) -> the word as above;
+   otherwise the assembler's own error at the line -- in both modes (the C06 dichotomy for these families, atomics included) *)
+Theorem C01_more_line_exact :
+  forall l toks name pos kw cmp,
+    more_form l toks name pos kw -> (cmp = true -> mem_str name compress_heads = false) ->
+    if legal_line32 name pos kw
+    then exists w i, encode name pos kw = Ok w /\ line_gives l toks cmp (Passes.le_bytes 4 w) /\ decode32 w = Some i /\
+                     exists ops, operands32 name pos kw = Some ops /\ denote32 name ops = Some i
+    else line_fails l toks cmp.
+Proof. exact more_line_exact. Qed.
+Print Assumptions C01_more_line_exact.
+Example C01_compress_heads :
+  compress_heads = ["lui"; "srli"; "srai"; "andi"; "sub"; "xor"; "or"; "and"; "jal"; "beq"; "bne"; "slli"; "lw"; "addi"; "ebreak"; "add"; "jalr"; "sw"]%string.
+Proof. vm_compute. reflexivity. Qed.
+
+(* every one of the 66 mnemonics is the subject of a line theorem: the parser's dispatch tables of the 32-bit classes (regenerated
+   from the source) together are exactly the Spec's list -- R / I / S / U / B / J (C01_line / imm_line / transfer_line above),
+   fence, ecall ebreak fence.i, the A tables (this section) *)
+Theorem C01_tables_cover :
+  forall name, In name base_mnemonics <->
+    In name (EndToEnd.r3_names ++ EndToEnd.i_names ++ EndToEnd.s_names ++ EndToEnd.u_names ++ EndToEnd.b_names ++ EndToEnd.j_names ++
+             fence_names ++ ie_names ++ a_names ++ al_names).
+Proof. exact tables_cover_base. Qed.
+Print Assumptions C01_tables_cover.
+
+From Coq Require Import Lia.
+(* ---- non-vacuity: concrete lines, the hypotheses computed, the expected word and its four little-endian bytes, the text through the
+   lexer model, both modes ---------------------------------------------------------------------------------------------------------- *)
+Open Scope string_scope.
+Ltac word_is Hw := vm_compute in Hw; match type of Hw with Ok ?v = Ok ?w => assert (w = v) by (inversion Hw; reflexivity); subst w end; clear Hw.
+Example C01_amo_line_example : forall l cmp,           (* amoadd.w a0, a1, a2, 1, 0  =  0x04c5a52f ; without ordering operands 0x00c5a52f *)
+  line_gives l ["amoadd.w"; "a0"; "a1"; "a2"; "1"; "0"] cmp [47; 165; 197; 4] /\ decode32 80061743 = Some (Amo AMOADD 10 11 12 1 0) /\
+  Passes.le_bytes 4 80061743 = [47; 165; 197; 4] /\
+  assemble_text [(l, "  amoadd.w a0, a1, a2, 1, 0  # acquire")] nil nil cmp = TDone (chunk_result l [47; 165; 197; 4]) /\
+  line_gives l ["AMOADD.W"; "x10"; "11"; "a2"] cmp (Passes.le_bytes 4 12952879) /\ decode32 12952879 = Some (Amo AMOADD 10 11 12 0 0).
+Proof.
+  intros l cmp.
+  destruct ((proj1 C01_atomic_line_end_to_end) l "amoadd.w" AMOADD "a0" "a1" "a2" ["1"; "0"] 10 11 12 1 0 cmp eq_refl eq_refl eq_refl eq_refl eq_refl)
+    as (w & Hw & Hg & _ & Hd). word_is Hw.
+  destruct ((proj1 C01_atomic_line_end_to_end) l "AMOADD.W" AMOADD "x10" "11" "a2" [] 10 11 12 0 0 cmp eq_refl eq_refl eq_refl eq_refl eq_refl)
+    as (w & Hw & Hg2 & _ & Hd2). word_is Hw.
+  split; [exact Hg|]. split; [exact Hd|]. split; [reflexivity|]. split; [|split; [exact Hg2|exact Hd2]].
+  apply (proj2 Hg). vm_compute. reflexivity.
+Qed.
+Example C01_lr_sc_line_example : forall l cmp,         (* lr.w t0, t1 = 0x100322af ; sc.w t0, t1, t2, 0, 1 = 0x1a7322af *)
+  line_gives l ["lr.w"; "t0"; "t1"] cmp (Passes.le_bytes 4 268640943) /\ decode32 268640943 = Some (LrW 5 6 0 0) /\
+  assemble_text [(l, "lr.w t0, t1")] nil nil cmp = TDone (chunk_result l [175; 34; 3; 16]) /\
+  line_gives l ["sc.w"; "t0"; "t1"; "t2"; "0"; "1"] cmp (Passes.le_bytes 4 443753135) /\ decode32 443753135 = Some (ScW 5 6 7 0 1).
+Proof.
+  intros l cmp.
+  destruct ((proj2 (proj2 C01_atomic_line_end_to_end)) l "lr.w" "t0" "t1" [] 5 6 0 0 cmp eq_refl eq_refl eq_refl eq_refl) as (w & Hw & Hg & _ & Hd). word_is Hw.
+  destruct ((proj1 (proj2 C01_atomic_line_end_to_end)) l "sc.w" "t0" "t1" "t2" ["0"; "1"] 5 6 7 0 1 cmp eq_refl eq_refl eq_refl eq_refl eq_refl)
+    as (w & Hw & Hg2 & _ & Hd2). word_is Hw.
+  split; [exact Hg|]. split; [exact Hd|]. split; [|split; [exact Hg2|exact Hd2]].
+  apply (proj2 Hg). vm_compute. reflexivity.
+Qed.
+Example C01_fence_line_example : forall l cmp,         (* fence 0b0011, 0b1100 = 0x0c30000f: succ = 0011, pred = 1100 *)
+  line_gives l ["fence"; "0b0011"; "0b1100"] cmp (Passes.le_bytes 4 204472335) /\ decode32 204472335 = Some (Fence 0 12 3) /\
+  assemble_text [(l, "fence 0b0011, 0b1100")] nil nil cmp = TDone (chunk_result l [15; 0; 48; 12]) /\
+  assemble_text [(l, "fence")] nil nil cmp = TDone (chunk_result l [15; 0; 240; 15]) /\
+  assemble_text [(l, "fence.i")] nil nil cmp = TDone (chunk_result l [15; 16; 0; 0]).
+Proof.
+  intros l cmp.
+  destruct ((proj1 C01_fence_line_end_to_end) l "fence" "0b0011" "0b1100" 3 12 cmp eq_refl eq_refl eq_refl) as (w & Hw & Hg & _ & Hd); try lia.
+  word_is Hw. split; [exact Hg|]. split; [exact Hd|]. split; [apply (proj2 Hg); vm_compute; reflexivity|].
+  split.
+  - apply (proj2 (proj1 ((proj1 (proj2 C01_fence_line_end_to_end)) l "fence" cmp eq_refl))). vm_compute. reflexivity.
+  - apply (proj2 (proj1 ((proj2 (proj2 C01_fence_line_end_to_end)) l "fence.i" cmp eq_refl))). vm_compute. reflexivity.
+Qed.
+Example C01_csr_line_example : forall l cmp,           (* csrrw t0, t1, 0x300 = 0x300312f3 ; csrrwi t0, 5, 0x300 = 0x3002d2f3 *)
+  line_gives l ["csrrw"; "t0"; "t1"; "0x300"] cmp (Passes.le_bytes 4 805507827) /\ decode32 805507827 = Some (Csr CSRRW 5 6 768) /\
+  assemble_text [(l, "csrrw t0, t1, 0x300")] nil nil cmp = TDone (chunk_result l [243; 18; 3; 48]) /\
+  line_gives l ["csrrwi"; "t0"; "5"; "0x300"] cmp (Passes.le_bytes 4 805491443) /\ decode32 805491443 = Some (Csr CSRRWI 5 5 768) /\
+  assemble_text [(l, "csrrwi t0, 5, 0x300")] nil nil cmp = TDone (chunk_result l [243; 210; 2; 48]).
+Proof.
+  intros l cmp.
+  destruct (C01_csr_line_end_to_end l "csrrw" CSRRW "t0" "t1" "0x300" (Items.ANum 768) 768 5 6 cmp eq_refl eq_refl eq_refl eq_refl eq_refl)
+    as (w & Hw & Hg & _ & Hd); try lia. word_is Hw.
+  destruct (C01_csr_line_end_to_end l "csrrwi" CSRRWI "t0" "5" "0x300" (Items.ANum 768) 768 5 5 cmp eq_refl eq_refl eq_refl eq_refl eq_refl)
+    as (w & Hw & Hg2 & _ & Hd2); try lia. word_is Hw.
+  split; [exact Hg|]. split; [exact Hd|]. split; [apply (proj2 Hg); vm_compute; reflexivity|].
+  split; [exact Hg2|]. split; [exact Hd2|]. apply (proj2 Hg2); vm_compute; reflexivity.
+Qed.
+Example C01_system_line_example : forall l,            (* ecall = 0x00000073 ; ebreak = 0x00100073, compressed 0x9002 *)
+  (forall cmp, assemble_text [(l, "ecall")] nil nil cmp = TDone (chunk_result l [115; 0; 0; 0])) /\
+  assemble_text [(l, "EBREAK")] nil nil false = TDone (chunk_result l [115; 0; 16; 0]) /\
+  assemble_text [(l, "EBREAK")] nil nil true = TDone (chunk_result l [2; 144]).
+Proof.
+  intro l. split; [intro cmp|split].
+  - apply (proj2 (proj1 ((proj1 C01_system_line_end_to_end) l "ecall" cmp eq_refl))). vm_compute. reflexivity.
+  - apply (proj2 (proj1 ((proj1 (proj2 C01_system_line_end_to_end)) l "EBREAK" eq_refl))). vm_compute. reflexivity.
+  - apply (proj2 (proj1 ((proj2 (proj2 C01_system_line_end_to_end)) l "EBREAK" eq_refl))). vm_compute. reflexivity.
+Qed.
+Example C01_imm_reg_line_example : forall l,           (* lw a0, 8(sp) = 0x00812503 ; sw a0, -4(sp) = 0xfea12e23 ; lb also with compression on *)
+  line_gives l ["lw"; "a0"; "8"; "("; "sp"; ")"] false (Passes.le_bytes 4 8463619) /\ decode32 8463619 = Some (Load LW 10 2 8) /\
+  assemble_text [(l, "lw a0, 8(sp)")] nil nil false = TDone (chunk_result l [3; 37; 129; 0]) /\
+  line_gives l ["sw"; "a0"; "-4"; "("; "sp"; ")"] false (Passes.le_bytes 4 4271975971) /\ decode32 4271975971 = Some (Store SW 2 10 (-4)) /\
+  (forall cmp, line_gives l ["lb"; "a0"; "8"; "("; "sp"; ")"] cmp (Passes.le_bytes 4 8455427) /\ decode32 8455427 = Some (Load LB 10 2 8)) /\
+  line_gives l ["jalr"; "ra"; "2"; "("; "t0"; ")"] false (Passes.le_bytes 4 2261223) /\ decode32 2261223 = Some (Jalr 1 5 2).
+Proof.
+  intro l.
+  destruct ((proj1 C01_imm_reg_line_end_to_end) l "lw" LW "a0" "8" "sp" (Items.ANum 8) 8 10 2 false eq_refl eq_refl eq_refl eq_refl eq_refl)
+    as (w & Hw & Hg & _ & Hd); try lia; try discriminate. word_is Hw.
+  destruct ((proj1 (proj2 C01_imm_reg_line_end_to_end)) l "sw" SW "a0" "-4" "sp" (Items.AUn Items.UNeg (Items.ANum 4)) (-4) 2 10 false eq_refl eq_refl eq_refl eq_refl eq_refl)
+    as (w & Hw & Hg2 & _ & Hd2); try lia; try discriminate. word_is Hw.
+  destruct ((proj2 (proj2 C01_imm_reg_line_end_to_end)) l "jalr" "ra" "2" "t0" (Items.ANum 2) 2 1 5 eq_refl eq_refl eq_refl eq_refl eq_refl)
+    as (w & Hw & Hg3 & _ & Hd3); try lia; try reflexivity. word_is Hw.
+  split; [exact Hg|]. split; [exact Hd|]. split; [apply (proj2 Hg); vm_compute; reflexivity|].
+  split; [exact Hg2|]. split; [exact Hd2|]. split; [|split; [exact Hg3|exact Hd3]].
+  intro cmp.
+  destruct ((proj1 C01_imm_reg_line_end_to_end) l "lb" LB "a0" "8" "sp" (Items.ANum 8) 8 10 2 cmp eq_refl eq_refl eq_refl eq_refl eq_refl)
+    as (w & Hw & Hg4 & _ & Hd4); try lia; try discriminate. word_is Hw. auto.
+Qed.
+(* the other branch of C01_more_line_exact: aq = 2, a fence set of 16, a CSR number of 4096 are refused at the line, in both modes *)
+Example C01_more_line_refused_example : forall l cmp,
+  line_fails l ["amoadd.w"; "a0"; "a1"; "a2"; "2"; "0"] cmp /\ line_fails l ["fence"; "16"; "0"] cmp /\
+  line_fails l ["csrrw"; "t0"; "t1"; "4096"] cmp /\
+  assemble_text [(l, "amoadd.w a0, a1, a2, 2, 0")] nil nil cmp = TFail (Items.PAsm l).
+Proof.
+  intros l cmp.
+  assert (A : line_fails l ["amoadd.w"; "a0"; "a1"; "a2"; "2"; "0"] cmp).
+  { apply (C01_more_line_exact l _ "amoadd.w" [AStr "a0"; AStr "a1"; AStr "a2"] [("aq", AStr "2"); ("rl", AStr "0")] cmp).
+    - apply M_a5; [reflexivity|vm_compute; auto 20|reflexivity].
+    - intros _. reflexivity. }
+  split; [exact A|]. split; [|split].
+  - apply (C01_more_line_exact l _ "fence" [AStr "16"; AStr "0"] nil cmp).
+    + apply M_fence; [reflexivity|vm_compute; auto|reflexivity].
+    + intros _. reflexivity.
+  - apply (C01_more_line_exact l _ "csrrw" [AStr "t0"; AStr "t1"; AInt 4096] nil cmp).
+    + apply (M_csr l "csrrw" "csrrw" "t0" "t1" "4096" (Items.ANum 4096) 4096); try reflexivity. vm_compute; auto.
+    + intros _. reflexivity.
+  - apply (proj2 A). vm_compute. reflexivity.
+Qed.
